@@ -39,6 +39,9 @@ CONCEPTS = ["hand", "foot", "eye", "sun"]
 CONS = list("ptkmnslrh")
 VOW = list("aeiou")
 FREE = ["xa", "xb", "xc", "xd", "xe", "xf"]
+# column names / values that are not in composed (NFC) form, as file systems and NFD pipelines produce them
+ODD_NAMES = ["franc\u0327ais", "e\u0301tymon", "glosa\u0303", "a\u030angstrom"]
+ODD_STRINGS = ["ma\u0303o", "pie\u0301", "u\u0308ber"]
 STRUCT = ["doculect", "concept", "ipa", "tokens", "cogid"]
 LEX_COLS = ["sonars", "prostrings", "classes", "langid", "numbers", "weights", "duplicates"]
 REQ = {"QLCParser": [], "Wordlist": ["doculect", "concept"],
@@ -99,7 +102,7 @@ def rand_free_value(rng):
     if c < 0.45:
         return rng.randint(0, 5)
     if c < 0.75:
-        return rng.choice(["u", "v", "w", ""])
+        return rng.choice(["u", "v", "w", ""] + ODD_STRINGS)
     return rng.choice([["p", "a"], ["u"], [], ["k", "o", "s"]])
 
 
@@ -118,6 +121,10 @@ def value_for(rng, col):
     return rand_free_value(rng)
 
 
+def is_free(c):
+    return c.strip() in FREE or c.strip() in ODD_NAMES
+
+
 def gen_dict(rng, bare=False):
     if bare:
         hdr = rng.sample(FREE, rng.choice([1, 2, 3]))
@@ -126,6 +133,8 @@ def gen_dict(rng, bare=False):
         if rng.random() < 0.5:
             rng.shuffle(hdr)
         hdr += rng.sample(FREE, rng.choice([0, 0, 1, 2]))
+    if rng.random() < 0.15:
+        hdr.insert(rng.randrange(len(hdr) + 1), rng.choice(ODD_NAMES))
     with_alm = (not bare) and rng.random() < 0.2      # stored alignments (list cells) in the source
     n = rng.choice([2, 3, 3, 4, 4, 5, 6])
     ids = rng.sample(range(1, 13), n)
@@ -249,7 +258,7 @@ def gen_case(rng, max_steps=12):
         elif kind == "add":
             tgt = rng.choice(wls[-3:]) if rng.random() < 0.75 else rng.choice(wls)
             o = shadow[tgt]
-            free_present = [c for c in o["hdr"] if c.strip() in FREE]
+            free_present = [c for c in o["hdr"] if is_free(c)]
             c = rng.random()
             if c < 0.6 or not free_present:
                 cand = [x for x in FREE if x not in o["hdr"]] or FREE
@@ -282,7 +291,7 @@ def gen_case(rng, max_steps=12):
             tgt = rng.choice(wls[-3:]) if rng.random() < 0.75 else rng.choice(wls)
             o = shadow[tgt]
             i = rng.choice(o["ids"]) if o["ids"] and rng.random() < 0.87 else rng.randint(13, 15)
-            ok_cols = [c for c in o["hdr"] if c.strip() in FREE or c.strip() in ("ipa", "tokens", "cogid") or
+            ok_cols = [c for c in o["hdr"] if is_free(c) or c.strip() in ("ipa", "tokens", "cogid") or
                        (c.strip() in ("doculect", "concept") and o["cls"] in ("QLCParser", "Wordlist"))]
             col = rng.choice(ok_cols) if ok_cols and rng.random() < 0.88 else rng.choice(["zz", "xq"])
             steps.append({"op": "set", "tgt": tgt, "id": i, "col": col, "val": value_for(rng, col)})
@@ -333,7 +342,7 @@ def gen_case(rng, max_steps=12):
         elif kind == "renumber":
             tgt = rng.choice(wls)
             o = shadow[tgt]
-            src = rng.choice([c for c in o["hdr"] if c.strip() in ("concept", "doculect", "cogid", "ipa") or c.strip() in FREE]
+            src = rng.choice([c for c in o["hdr"] if c.strip() in ("concept", "doculect", "cogid", "ipa") or is_free(c)]
                              or ["zz"])
             steps.append({"op": "renumber", "tgt": tgt, "source": src, "override": rng.random() < 0.5})
             if src + "id" not in o["hdr"]:
@@ -752,6 +761,8 @@ def hist_classify(case, res):
         out.append("op=" + st["op"] + ("/raised" if o["raised"] else ""))
         if st["op"] == "cons":
             out.append("cons=" + st["cls"] + ("/raised" if o["raised"] else ""))
+        if st["op"] == "newdict" and any(n in ODD_NAMES for n in st["hdr"]):
+            out.append("dict_with_non_NFC_column_name")
         if st["op"] == "newdict" and any(n != n.strip() for n in st["hdr"]):
             out.append("dict_with_blank_in_column_name")
         if st["op"] == "newdict" and "alignment" in [n.strip() for n in st["hdr"]]:
